@@ -54,7 +54,8 @@ let canon_obs (obs : ((nat * nat) * n) list) : string =
   let next = ref 0 in
   String.concat "," (List.map (fun ((k, f), a) ->
       let ai = int_of_n a in
-      let c = if ai = 0 then 0 else
+      let kk = int_of_nat k in
+      let c = if ai = 0 then 0 else if kk = 4 || kk = 8 then ai else
           (match Hashtbl.find_opt tbl ai with
            | Some c -> c
            | None -> incr next; Hashtbl.add tbl ai !next; !next) in
